@@ -13,7 +13,7 @@ def run_c17(chk, d, flags, tag, rounds):
     ok, log = V.cc_harness(os.path.join(V.HARNESS, 'c17.c'), h, flags=list(flags) + ['-DVERIF_STATIC_C="%s/src/static.c"' % V.REPO])
     if not ok:
         chk.broken_tie('c17 harness (%s) does not compile against the current tree' % tag, log[-1500:]); return None
-    rc, out, err = V.run([h, str(chk.seed), str(rounds)], timeout=1200)
+    rc, out, err = V.run([h, str(chk.seed), str(rounds)], timeout=700)
     if rc != 0 or 'DONE' not in out:
         last = [l for l in out.splitlines() if l and not l.startswith('T ')][-1:] or ['']
         chk.violation('C17/%s-crash' % tag, 'hardened-build harness (%s) crashed (exit %d) after: %s %s' % (tag, rc, last[0], err[-300:].replace('\n', ' ')),
